@@ -233,3 +233,51 @@ Fixpoint settle_gen (fx : bool) (fuel : nat) (l : lim) : lim :=
 Definition settle := settle_gen true.
 Definition quiescent (l : lim) : bool :=
   match first_enabled l (arr l) with None => true | Some _ => false end.
+
+(* ---- the same scheduler while some goroutines are DELAYED: the requests in [hold] do not move
+   (the harness parks them at a scheduling point of the real code), everybody else runs to rest.
+   With [hold = []] this is [settle_gen]. ---- *)
+Definition unheld (hold : list N) (rs : list N) : list N := filter (fun r => negb (mem r hold)) rs.
+Fixpoint settle_hold_gen (fx : bool) (fuel : nat) (hold : list N) (l : lim) : lim :=
+  match fuel with
+  | O => l
+  | S f => match first_enabled l (unheld hold (arr l)) with
+           | None => l
+           | Some a => settle_hold_gen fx f hold (step_gen fx l a)
+           end
+  end.
+Definition settle_hold := settle_hold_gen true.
+Definition quiescent_hold (hold : list N) (l : lim) : bool :=
+  match first_enabled l (unheld hold (arr l)) with None => true | Some _ => false end.
+
+(* ---- a variant of releaseEndpoint that is NOT the code: the freed slot is handed to the first
+   queued waiter whose context is not done; waiters whose context is done are popped and skipped
+   ("do not hand the slot to a request that will not use it").  cancelEndpoint is unchanged, i.e.
+   it still concludes "my channel is not queued => I was admitted".  Kept for the refutation
+   lemma [skip_cancelled_refuted] only. ---- *)
+Fixpoint pop_live (canc : N -> bool) (q : list N) : option N * list N :=
+  match q with
+  | [] => (None, [])
+  | w :: rest => if canc w then pop_live canc rest else (Some w, rest)
+  end.
+Definition release_ep_skip (l : lim) (k : N) : lim :=
+  match tab l k with
+  | None => l
+  | Some (cnt, q) =>
+      match pop_live (cancelled l) q with
+      | (Some w, rest) =>
+          with_st (with_tab l (upd (tab l) k (Some (cnt, rest)))) (upd (st l) w (grant_ep (st l w)))
+      | (None, _) =>
+          if cnt - 1 =? 0 then with_tab l (upd (tab l) k None)
+          else with_tab l (upd (tab l) k (Some (cnt - 1, [])))
+      end
+  end.
+Definition step_skip (l : lim) (a : act) : lim :=
+  match a with
+  | ReleaseEp r =>
+      match st l r with
+      | RelEp e => set_st (release_ep_skip l (keyof l r)) r (Done e)
+      | _ => l
+      end
+  | _ => step l a
+  end.
